@@ -15,13 +15,16 @@
 (*     ids); votes that do not complete a quorum change nothing;                                     *)
 (*   - a proof is delivered only while it can still change the best proof before the node has its     *)
 (*     block; a block only then, or while the node counts the final step;                             *)
-(*   - the proposers are the top ids (non-proposers are interchangeable, proposers are ranked by id). *)
+(*   - the proposers are the top ids (non-proposers are interchangeable, proposers are ranked by id); *)
+(*   - an equivocating member (MByz) never runs; whatever vote of it completes a quorum is taken as   *)
+(*     sent and delivered at that moment (it can sign anything for anybody), after the honest votes.  *)
 (* SNext is the unreduced Next of BA with the schedule recorded, for random simulation.               *)
 EXTENDS BA, Json
 
 CONSTANTS MN, MT, MTF, MMaxSteps,   \* the instance
           ExportOn, SampleMod,       \* export 1/SampleMod of the transitions that end a node's round
           Ks,                        \* numbers of proposers to explore
+          MByz,                      \* equivocating members (they never run; any vote of theirs is available on demand)
           TimeoutOdds                \* simulation: a timer fires with probability 1/TimeoutOdds when it is looked at
 
 VARIABLE hist
@@ -42,7 +45,7 @@ view == <<cf, props, pc, step, best, blocks, sel, bh, ba, pend, LivePool, due, L
 Lab(a, n, t, p, w, s, v, m) == [a |-> a, n |-> n, t |-> t, p |-> p, w |-> w, s |-> s, v |-> v, m |-> m]
 L0(a, n) == Lab(a, n, "", 0, 0, 0, 0, 0)
 
-MInit == /\ \E k \in Ks : InitWith([N |-> MN, T |-> MT, TF |-> MTF, MaxSteps |-> MMaxSteps], (MN - k + 1)..MN)
+MInit == /\ \E k \in Ks : InitWith([N |-> MN, T |-> MT, TF |-> MTF, MaxSteps |-> MMaxSteps, Byz |-> MByz], (MN - k + 1)..MN)
          /\ hist = <<>>
 
 SomeDue == \E n \in Nodes : due[n] # <<>>
@@ -64,16 +67,20 @@ NeedsBlock(p, n) == /\ p \notin blocks[n] /\ p >= best[n]
                        \/ (pc[n] = "count" /\ step[n] = Final /\ due[n] = <<>> /\ ba[n].v = p)
 
 \* the canonical quorum for (step[n], v) among the votes sent so far: own vote first, then the smallest ids
-Avail(n, v) == {m.w : m \in {x \in sent : x.t = "vote" /\ x.s = step[n] /\ x.v = v}}
+Avail(n, v) == {m.w : m \in {x \in sent : x.t = "vote" /\ x.s = step[n] /\ x.v = v}} \cup cf.Byz
 RECURSIVE Smallest(_, _)
 Smallest(S, k) == IF k = 0 \/ S = {} THEN {} ELSE LET x == CHOOSE y \in S : \A z \in S : y <= z IN {x} \cup Smallest(S \ {x}, k - 1)
-QuorumSet(n, v) == IF n \in Avail(n, v) THEN {n} \cup Smallest(Avail(n, v) \ {n}, Thr(step[n]) - 1)
-                   ELSE Smallest(Avail(n, v), Thr(step[n]))
+\* honest votes first (own vote first of all), an equivocator's vote only to fill up
+HonestAvail(n, v) == Avail(n, v) \ cf.Byz
+OwnFirst(n, v) == IF n \in HonestAvail(n, v) THEN {n} ELSE {}
+QuorumSet(n, v) == LET h == OwnFirst(n, v) \cup Smallest(HonestAvail(n, v) \ {n}, Thr(step[n]) - Cardinality(OwnFirst(n, v)))
+                   IN h \cup Smallest(cf.Byz, Thr(step[n]) - Cardinality(h))
 DeliverLabs(n, S, s, v) == [i \in 1..Len(SetToSeq(S)) |-> Lab("Deliver", n, "vote", 0, SetToSeq(S)[i], s, v, 0)]
 CountOKd(n, v) ==
     /\ Counting(n) /\ Cardinality(Avail(n, v)) >= Thr(step[n])
     /\ LET Q == QuorumSet(n, v)
        IN /\ pool' = [pool EXCEPT ![n] = @ \cup {VoteMsg(w, step[n], v) : w \in Q}]
+          /\ sent' = sent \cup {VoteMsg(w, step[n], v) : w \in Q \cap cf.Byz}
           /\ AfterCount(n, v, Q)
           /\ hist' = hist \o DeliverLabs(n, Q \ {n}, step[n], v) \o <<Lab("CountOK", n, "", 0, 0, step[n], v, 0)>>
 
@@ -110,6 +117,9 @@ SNext ==
        \/ \E p \in props : pc[n] # "done" /\ p > best[n] /\ DeliverProof(p, n) /\ hist' = Append(hist, Lab("Deliver", n, "proof", p, 0, 0, 0, 0))
        \/ \E p \in props : pc[n] # "done" /\ p \notin blocks[n] /\ DeliverBlock(p, n) /\ hist' = Append(hist, Lab("Deliver", n, "block", p, 0, 0, 0, 0))
        \/ \E m \in sent : pc[n] # "done" /\ m \notin pool[n] /\ DeliverVote(m, n) /\ hist' = Append(hist, Lab("Deliver", n, "vote", 0, m.w, m.s, m.v, 0))
+       \/ \E o \in Honest, v \in Values :        \* an equivocator signs a vote of the step some honest node is counting
+             /\ pc[o] = "count" /\ VoteMsg(n, step[o], v) \notin sent /\ RandomElement(1..TimeoutOdds) = 1
+             /\ ByzVote(n, step[o], v) /\ hist' = Append(hist, L0("ByzVote", n))
 
 -----------------------------------------------------------------------------
 (* the history-dependent properties as action properties (see VIEW) *)
@@ -128,7 +138,7 @@ CertGenuineStep ==
     \A n \in Nodes : /\ ba'[n] # ba[n] => \A w \in ba'[n].voters : VoteMsg(w, ba'[n].cs, ba'[n].cv) \in sent'
                       /\ pend'[n] # pend[n] => \A u \in pend'[n].voters : VoteMsg(u, pend'[n].cs, pend'[n].cv) \in sent'
 OneVotePerStepStep ==
-    \A m \in sent' \ sent : m.t = "vote" => \A x \in sent : x.t = "vote" /\ x.w = m.w /\ x.s = m.s => x.v = m.v
+    \A m \in sent' \ sent : m.t = "vote" /\ m.w \in Honest => \A x \in sent : x.t = "vote" /\ x.w = m.w /\ x.s = m.s => x.v = m.v
 StepProps == [][EmptyOnTimeoutStep /\ BackedCommitStep /\ CertGenuineStep /\ OneVotePerStepStep]_mvars
 \* the state invariants that only read what the VIEW keeps
 CertifiedCommitV == \A n \in Nodes : Committed(n) => CertAccepted(commit[n]) /\ (commit[n].final <=> commit[n].cs = Final)
@@ -138,13 +148,13 @@ CertifiedCommitV == \A n \in Nodes : Committed(n) => CertAccepted(commit[n]) /\ 
 Ended(n) == pc[n] # "done" /\ pc'[n] = "done"
 NDone == Cardinality({n \in Nodes : pc'[n] = "done"})
 KindOf(n) ==
-    "n" \o ToString(cf.N) \o "k" \o ToString(Cardinality(props)) \o ":" \o
+    "n" \o ToString(cf.N) \o "k" \o ToString(Cardinality(props)) \o (IF cf.Byz # {} THEN "z" ELSE "") \o ":" \o
     (IF commit'[n].v = NoVal THEN endk'[n]
      ELSE (IF commit'[n].v = Empty THEN "empty" ELSE IF commit'[n].final THEN "final" ELSE "tentative")
           \o "@" \o ToString(commit'[n].cs)
           \o (IF fetched'[n] # {} THEN "+fetched" ELSE ""))
     \o ":done" \o ToString(NDone)
-Rec(n) == [kind |-> KindOf(n), n |-> cf.N, k |-> Cardinality(props), maxsteps |-> cf.MaxSteps, sched |-> hist']
+Rec(n) == [kind |-> KindOf(n), n |-> cf.N, k |-> Cardinality(props), maxsteps |-> cf.MaxSteps, byz |-> SetToSeq(cf.Byz), sched |-> hist']
 Export ==
     IF ExportOn /\ (\E n \in Nodes : Ended(n)) /\ RandomElement(1..SampleMod) = 1
     THEN PrintT(ToJson(Rec(CHOOSE x \in Nodes : Ended(x))))
